@@ -240,6 +240,25 @@ class AttrStrings(_AttrIterable[str]):
 class AttrTensors(_AttrIterable[np.ndarray]):
     _attribute_proto_type = AttributeProto.TENSORS
 
+    def __init__(
+        self,
+        value: Union[Iterable[np.ndarray], _Ref[Tuple[np.ndarray, ...]]],
+        name: str,
+    ):
+        if not isinstance(value, _Ref):
+            value = tuple(
+                v.copy() if isinstance(v, (np.ndarray, np.generic)) else v
+                for v in value
+            )
+        super().__init__(value, name)
+
+    def _to_onnx_deref(self) -> AttributeProto:
+        return make_attribute(
+            self._name,
+            [from_array(v) for v in self.value],
+            attr_type=self._attribute_proto_type,
+        )
+
 
 def _deref(ref: _Ref[T]) -> T:
     if isinstance(ref._concrete._value, _Ref):
